@@ -289,6 +289,17 @@ def run(run: Run):
     wrapped_table(run, env)
     send_tail(run, env, J.SERVICE_DIR + "_client_macros.j2", "sync", sync_container)
     send_tail(run, env, J.SERVICE_DIR + "async_client.py.j2", "async", async_container)
+    # which coercion arm a request goes through is decided by the *request* type's package (pb2 requests of a dependency package are built by
+    # keyword expansion, proto-plus requests by T(request)); the arms themselves are C05's obligations
+    for tname, what in ((J.SERVICE_DIR + "_client_macros.j2", "sync"), (J.SERVICE_DIR + "async_client.py.j2", "async")):
+        tree = J.parse(env, tname)
+        hits = [n for n in tree.find_all(nodes.If) if J.has_data(n, "so it must be constructed via keyword expansion")
+                and isinstance(n.test, nodes.Compare)]
+        inner = [n for n in hits if not any(n is not o and any(x is n for x in o.find_all(nodes.If)) and J.has_data(o, "so it must be constructed via keyword expansion") and isinstance(o.test, nodes.Compare) for o in hits)]
+        ok = bool(hits) and all(J.expr_path(n.test.expr) == "method.input.ident.package" and len(n.test.ops) == 1 and n.test.ops[0].op == "ne"
+                                and J.expr_path(n.test.ops[0].expr) == "method.ident.package" for n in hits)
+        run.table(f"grpc.coercion:{what}:arm-selected-by-the-request-type's-package", ok,
+                  detail="; ".join(f"{J.expr_path(n.test.expr)} {n.test.ops[0].op} {J.expr_path(n.test.ops[0].expr)}" for n in hits)[:200], group="grpc.coercion:arm-selection")
     run.assume("grpc: channel.<arity>(path, request_serializer, response_deserializer) returns a callable that frames one RPC on that path",
                "api-core: gapic_v1.method.wrap_method(f) calls f once with the given request, the merged metadata and the effective retry/timeout",
                "the shared macros invoked between the stub lookup and the send (create_metadata, add_api_version_header, auto_populate_uuid4_fields) "
